@@ -13,7 +13,7 @@ use serde_json::json;
 pub const SCALAR_KINDS: [Kind; 6] = [Kind::Rsi, Kind::Fast, Kind::Slow, Kind::Roc, Kind::Er, Kind::Ppo];
 pub const BAR_KINDS: [Kind; 9] = [Kind::Rsi, Kind::Fast, Kind::Slow, Kind::Roc, Kind::Er, Kind::Ppo, Kind::Cci, Kind::Mfi, Kind::Obv];
 
-pub const RULE: &str = "Positive scalar price streams (band regimes, m in 1e-3..1e6) for RSI/FAST/SLOW/ROC/ER/PPO and valid OHLCV bars with close != (high+low)/2, equal neighbours and zero volume (6 bar styles + tiled AMZN) for those plus CCI/MFI/OBV, periods to 512; every output judged at every step against a double-double from-scratch evaluation of the documented formula at tolerance tau(t)*c*scale when the condition number c <= 1e6 and the reference denominator is non-zero (others counted as skipped); plus long runs of 2*10^5 (quick) / 2*10^6 (thorough) bars judged on the first 3000 steps, every 997th and the last; plus every sequence up to a depth bound over a small positive price / bar alphabet for periods 1..=5 (exhaustive). Non-trivial: stream longer than the period and at least one judged (well-conditioned) step; distinct by hash of (indicator, params, stream head) or by construction.";
+pub const RULE: &str = "Positive scalar price streams (band regimes, m in 1e-3..1e6) for RSI/FAST/SLOW/ROC/ER/PPO and valid OHLCV bars with close != (high+low)/2, equal neighbours and zero volume (6 bar styles + tiled AMZN) for those plus CCI/MFI/OBV, periods to 512; every output judged at every step against a double-double from-scratch evaluation of the documented formula at tolerance tau(t)*c*scale when the condition number c <= 1e6 and the reference denominator is non-zero (others counted as skipped); plus long runs of 1.1*10^6 (quick) / 2.2*10^6 (thorough) bars judged on the first 3000 steps, every 997th and the last; plus every sequence up to a depth bound over a small positive price / bar alphabet for periods 1..=5 (exhaustive). Non-trivial: stream longer than the period and at least one judged (well-conditioned) step; distinct by hash of (indicator, params, stream head) or by construction.";
 
 fn judge(p: &Params, out: &Out, r: &RefOut, js: &mut Judgements) -> usize {
     osc_judgements(p, out, r, js)
@@ -170,7 +170,7 @@ fn run_enum(ctx: &Ctx) -> Report {
 
 /// long runs for the oscillators (EMA-based ones have infinite memory; OBV is a running sum)
 fn run_soak(ctx: &Ctx) -> Report {
-    let steps = ctx.pick(200_000usize, 2_000_000usize);
+    let steps = ctx.pick(1_100_000usize, 2_200_000usize); // quick passes 2^20, thorough 2^21
     let seed = ctx.seed;
     let mut jobs = Vec::new();
     for (i, regime) in [crate::gen::Regime::Walk, crate::gen::Regime::Saw(100), crate::gen::Regime::AltExtremes, crate::gen::Regime::Plateau].iter().enumerate() {
